@@ -62,6 +62,14 @@ def build_items_rs(unit, work):
             impls[attrs["impl"]].append(ex["text"])
         else:
             free.append(ex["text"])
+    # statement regions: the ORIGINAL region text between a plain-Rust wrapper header/footer given in unit.json
+    wrappers = meta.get("replay_wrappers", {})
+    for seg in segs:
+        if seg[0] == "item" and seg[1]["kind"] == "region" and seg[1]["name"] in wrappers:
+            a = seg[1]
+            ex = X.extract_region(os.path.join(vf.REPO, a["file"]), a["in"], a.get("impl"), a["from"], a["to"], int(a.get("from_nth", 0)), int(a.get("to_nth", 0)), a.get("to_exclusive") == "yes")
+            w = wrappers[a["name"]]
+            free.append(w["header"] + "\n" + ex["text"] + "\n" + w["footer"])
     out = ["// generated on every run from /repo's working tree: ORIGINAL item text (only serde derives/attributes removed from types)"]
     out += types
     for im in order:
